@@ -449,6 +449,7 @@ func Run(c *engine.Ctx) {
 	// first, a middle and the last two nodes of one side must not show on the other (chunking and threshold code)
 	wide(c)
 	deep(c)
+	sameOperand(c)
 
 	// 3. histories of calls sharing operands: earlier results never change
 	histories(c)
@@ -548,6 +549,63 @@ func deep(c *engine.Ctx) {
 			}
 		}
 	}
+}
+
+// sameOperand: the receiver is also the argument (a.Union(a), a.Intersect(a)) - the result is still a value of its own.
+func sameOperand(c *engine.Ctx) {
+	c.Group("same-operand")
+	ops := []struct {
+		Name string
+		Do   func(a *sbom.NodeList) *sbom.NodeList
+	}{
+		{"Union", func(a *sbom.NodeList) *sbom.NodeList { return a.Union(a) }},
+		{"Intersect", func(a *sbom.NodeList) *sbom.NodeList { return a.Intersect(a) }},
+	}
+	n := 0
+	for _, an := range operandNames {
+		devs := listDeviations(operand(an))
+		n += len(devs)
+		for oi := range ops {
+			for di := range devs {
+				for side := 0; side < 2; side++ {
+					an, oi, di, side := an, oi, di, side
+					c.Case(func() any {
+						return map[string]any{"op": ops[oi].Name + "(a,a)", "a": an, "path": devs[di].Label, "mutated": []string{"result", "operand"}[side]}
+					}, func(t *engine.T) *engine.Violation {
+						a := operand(an)
+						r := ops[oi].Do(a)
+						r2 := ops[oi].Do(a) // a second result of the same call: another value again
+						t.Transitions(2)
+						if r == nil {
+							return engine.Violate("result-independent", "same-operand", "%s(a,a) returned nil", ops[oi].Name)
+						}
+						mut, others := proto.Message(r), []proto.Message{a, r2}
+						if side == 1 {
+							mut, others = a, []proto.Message{r, r2}
+						}
+						var before []string
+						for _, o := range others {
+							before = append(before, gen.Snap(o))
+						}
+						if !safeMutate(devs[di], mut) {
+							t.Outcome("path-not-applicable")
+							return nil
+						}
+						t.Validated(1)
+						for i, o := range others {
+							if after := gen.Snap(o); after != before[i] {
+								return engine.Violate("result-independent", "same-operand:"+ops[oi].Name, "%s(a,a): mutating %s of the %s changed %s: %s", ops[oi].Name, devs[di].Label, []string{"result", "operand"}[side], [][]string{{"the operand", "a second result of the same call"}, {"the result", "a second result of the same call"}}[side][i], gen.SnapDiff(before[i], after))
+							}
+						}
+						t.State(fmt.Sprint("same", an, oi, devs[di].Label, side))
+						t.Outcome("same-operand-ok")
+						return nil
+					})
+				}
+			}
+		}
+	}
+	c.Bound("same-operand", fmt.Sprintf("a.Union(a) and a.Intersect(a) for %d operand lists x %d field paths x {result, operand} mutated; the operand, the result and a second result of the same call share nothing", len(operandNames), n))
 }
 
 func wide(c *engine.Ctx) {
